@@ -21,6 +21,7 @@ def handleLine (line : String) : String :=
       | .ok c => id ++ "\t" ++ showM (evalCode (mkWorld w) (some "main") c)
       | .error e => id ++ "\tgenerr:" ++ e.name
     | _, _, _ => id ++ "\tbadinput"
+  | ["PARSE", id, toks, oracle] => parseCommand id toks oracle
   | ["ECHO", id, struct] =>
     match parseInput struct with
     | some p => id ++ "\t" ++ showInput p
